@@ -2,15 +2,16 @@
  * port handling of htp_normalize_parsed_uri(), judged by a PARTITION CHECKER (no second parser):
  * re-joining the reported components with their delimiters must reproduce the target. */
 #include "hx.h"
+#include <ctype.h>
 #include "cut.h"
 
 static const uint8_t A[] = { 'a', ':', '/', '@', '?', '#', '[', ']', '.', '0', '9', ' ' };
 #define NA 12
 static uint8_t cur[64]; static int curlen;
-static char descbuf[256];
+static char descbuf[256]; static int cur_connect;      /* 1: the string in flight is an authority-form (CONNECT) target */
 static const char *describe(void) {
     hx_buf b = { (uint8_t *) descbuf, 0, sizeof descbuf };
-    hb_puts(&b, "# engine=enum_c13\ntarget "); hb_hex(&b, cur, (size_t) curlen); hb_puts(&b, "\n"); hb_term(&b);
+    hb_puts(&b, cur_connect ? "# engine=enum_c13\nconnect " : "# engine=enum_c13\ntarget "); hb_hex(&b, cur, (size_t) curlen); hb_puts(&b, "\n"); hb_term(&b);
     return descbuf;
 }
 static htp_connp_t *connp; static htp_tx_t *tx;
@@ -94,6 +95,37 @@ static int check(const uint8_t *s, int len, int verbose) {
     return bad;
 }
 
+/* authority-form targets (CONNECT): the request line code hands the target to htp_parse_uri_hostport(); the raw components are host and port,
+ * re-joined as host [":" port] they must reproduce the target (minus trailing spaces), a target that starts with '/' gets no authority */
+static int eq_nocase(const uint8_t *a, size_t na, const uint8_t *b, size_t nb) { if (na != nb) return 0; for (size_t i = 0; i < na; i++) if (tolower(a[i]) != tolower(b[i])) return 0; return 1; }
+static size_t strip_ws(uint8_t *dst, const uint8_t *a, size_t n) { size_t k = 0; for (size_t i = 0; i < n; i++) if (!isspace(a[i])) dst[k++] = a[i]; return k; }
+static int check_connect(const uint8_t *s, int len) {
+    bstr *in = bstr_dup_mem(s, (size_t) len);
+    htp_uri_t *u = htp_uri_alloc();
+    tx->flags = 0;
+    hx_in_lib = 1; int rc = htp_parse_uri_hostport(connp, in, u); hx_in_lib = 0;
+    int bad = 0;
+    if (rc == HTP_OK) {
+        int tl = len; while (tl > 0 && s[tl - 1] == ' ') tl--;
+        static hx_buf r; hb_reset(&r);
+        app(&r, u->hostname); if (u->port) { hb_putc(&r, ':'); app(&r, u->port); }
+        size_t rl = r.n; while (rl > 0 && r.p[rl - 1] == ' ') rl--;
+        int invalid = (tx->flags & HTP_HOSTU_INVALID) != 0;
+        if (tl > 0 && s[0] == '/' && (u->hostname || u->port) && !invalid) { viol("connect_slash_authority", "authority-form parse of a target that starts with '/': a host is reported and the target is not flagged as invalid"); bad = 1; }
+        else if (!(rl == (size_t) tl && (tl == 0 || !memcmp(r.p, s, (size_t) tl)))) {
+            static hx_buf e; hb_reset(&e); hb_esc(&e, r.p, r.n); hb_term(&e); char m[300];
+            uint8_t a1[80], a2[80]; size_t n1 = strip_ws(a1, r.p, rl), n2 = strip_ws(a2, s, (size_t) tl);
+            const char *kind = eq_nocase(r.p, rl, s, (size_t) tl) ? "connect_rejoin_case" : eq_nocase(a1, n1, a2, n2) ? "connect_rejoin_ws" : invalid ? "connect_rejoin_flagged_invalid" : "connect_rejoin";
+            snprintf(m, sizeof m, "authority-form (CONNECT) target: the raw host and port re-join to \"%s\"", (char *) e.p);
+            /* a target the library itself marks as an invalid host is not claimed to be split faithfully */
+            if (strcmp(kind, "connect_rejoin_flagged_invalid")) { viol(kind, m); bad = 1; }
+        }
+    }
+    hx_in_lib = 1; htp_uri_free(u); hx_in_lib = 0;
+    bstr_free(in);
+    return bad;
+}
+
 static int worker(int argc, char **argv) {
     hx_inflight_describe = describe;
     hx_cfgspec cs; hx_cfgspec_default(&cs);
@@ -102,9 +134,11 @@ static int worker(int argc, char **argv) {
     const char *rp = hx_arg(argc, argv, "--replay", NULL);
     if (rp) {
         FILE *f = fopen(rp, "r"); if (!f) { perror(rp); return 2; } char line[512]; int rc = 0;
-        while (fgets(line, sizeof line, f)) if (!strncmp(line, "target ", 7)) {
-            curlen = 0; for (char *p = line + 7; p[0] && p[1] && p[0] != '\n'; p += 2) { unsigned v; sscanf(p, "%2x", &v); cur[curlen++] = (uint8_t) v; }
-            rc = check(cur, curlen, 1);
+        while (fgets(line, sizeof line, f)) if (!strncmp(line, "target ", 7) || !strncmp(line, "connect ", 8)) {
+            int con = line[0] == 'c';
+            curlen = 0; for (char *p = line + (con ? 8 : 7); p[0] && p[1] && p[0] != '\n' && curlen < (int) sizeof cur; p += 2) { unsigned v; sscanf(p, "%2x", &v); cur[curlen++] = (uint8_t) v; }
+            cur_connect = con; rc = con ? check_connect(cur, curlen) : check(cur, curlen, 1);
+            if (con) printf("authority-form target replayed: %s\n", rc ? "VIOLATION" : "ok");
         }
         fclose(f); return rc;
     }
@@ -139,6 +173,14 @@ static int worker(int argc, char **argv) {
                 if (!hx_inflight_tick()) { n_eval++; check(cur, len, 0); }
             }
         }
+    }
+    /* authority-form layer: every string of length <= 6 over a host:port alphabet */
+    {
+        static const uint8_t CA[] = { 'a', 'B', ':', '.', '9', ' ', '\t', '/', '[', ']' };
+        int cmax = atoi(hx_arg(argc, argv, "--connect-len", "6")); long c3 = 0;
+        for (int len = 1; len <= cmax; len++) { int idx[8] = { 0 }; for (;;) {
+            if (c3++ % hx_shard_n == hx_shard_i) { for (int i = 0; i < len; i++) cur[i] = CA[idx[i]]; curlen = len; cur_connect = 1; if (!hx_inflight_tick()) { n_eval++; check_connect(cur, len); } cur_connect = 0; }
+            int k = len - 1; while (k >= 0 && ++idx[k] == 10) idx[k--] = 0; if (k < 0) break; } }
     }
     /* port literals: values around 2^16, 2^31, 2^32, 2^63, 2^64 and values congruent to a valid port modulo 2^32 / 2^64, with leading zeros and blanks */
     if (hx_shard_i == 0) {
